@@ -5,4 +5,5 @@ TARGETS = {
     'atomic-thr': dict(cfg='thr', src=['harness/atomic.cpp'], cflags=f'-O0 -g1 {ASAN} {UBSAN}', libs='-lrapidcheck'),
     'stdlocks': dict(cfg='fib', src=['harness/stdlocks.cpp'], cflags=f'-O1 -g1 {ASAN}', libs='-lrapidcheck'),
     'repro': dict(cfg='fib', src=['harness/repro.cpp'], cflags=f'-O1 -g1 {ASAN}', libs='-lrapidcheck'),
+    'exec': dict(cfg='fib', src=['harness/exec.cpp'], cflags=f'-O1 -g1 {ASAN}', libs='-lrapidcheck'),
 }
